@@ -284,3 +284,39 @@ Proof.
   - destruct (sc_lookup (ctx st) (key ++ s_index)) as [[]|] eqn:E1; cbn [st_as_int go_bind fst]; try reflexivity.
     all: cbn [ctx]; destruct (sc_lookup (ctx st) (key ++ s_lastindex)) as [[]|] eqn:E2; cbn [st_as_int go_bind fst]; reflexivity.
 Qed.
+
+(* ---- the same on the interpreter's state: m_push / m_pop / m_set (Model/Interp.v) keep the scopes related ---- *)
+Theorem m_push_matches_source gs (st : mstate) :
+  scope_rel gs (ctx st) ->
+  exists gs', src_soyhtml_scope_push value (rev gs) = rev gs' /\
+              fst (m_push st) = Ok tt /\ scope_rel gs' (ctx (snd (m_push st))).
+Proof.
+  intros R. destruct (sc_push_matches_source gs (ctx st) R) as (gs' & E & R').
+  exists gs'. split; [exact E|]. split; [reflexivity|exact R'].
+Qed.
+
+Theorem m_pop_matches_source gs (st : mstate) :
+  scope_rel gs (ctx st) -> st_small (go_len gs) -> ctx st <> [] ->
+  exists gs', src_soyhtml_scope_pop value (rev gs) = Some (rev gs') /\
+              fst (m_pop st) = Ok tt /\ scope_rel gs' (ctx (snd (m_pop st))).
+Proof.
+  intros R Hs Hne. pose proof (sc_pop_matches_source gs (ctx st) R Hs) as H.
+  destruct (ctx st) as [|f r] eqn:E; [congruence|]. destruct H as (gs' & E' & R').
+  exists gs'. split; [exact E'|]. split; [reflexivity|]. unfold m_pop, modify. cbn [snd ctx set_ctx]. rewrite E. exact R'.
+Qed.
+
+(* set: the binding lands in the deepest frame; on an empty stack Go panics (index out of range) and the model reports
+   e_index; the model's note of a write into a caller-owned map (f_origin) is a ghost of C08 and has no Go counterpart *)
+Theorem m_set_matches_source gs (st : mstate) (k : bstr) (v : value) :
+  scope_rel gs (ctx st) -> st_small (go_len gs) ->
+  match src_soyhtml_scope_set value (rev gs) k v with
+  | Some g' => fst (m_set k v st) = Ok tt /\ scope_rel (rev g') (ctx (snd (m_set k v st)))
+  | None => fst (m_set k v st) = Err e_index
+  end.
+Proof.
+  intros R Hs. pose proof (sc_set_matches_source gs (ctx st) k v R Hs) as H.
+  unfold m_set. destruct (ctx st) as [|f r] eqn:E.
+  - rewrite H. reflexivity.
+  - destruct H as (gs' & E' & R'). rewrite E'. rewrite rev_involutive. split; [reflexivity|].
+    cbn [snd]. destruct (sc_top_origin (f :: r)); cbn [ctx set_ctx]; exact R'.
+Qed.
